@@ -922,6 +922,10 @@ func (st *e2State) classifyLoop(fn *Func, rs *ast.RangeStmt, why string, addSrc 
 		case *ast.FuncLit:
 			return false
 		case *ast.AssignStmt:
+			// `switch v := x.(type)`: the symbol is bound per clause, inside the iteration
+			if ts, ok := p.Parent(x).(*ast.TypeSwitchStmt); ok && ts.Assign == ast.Stmt(x) {
+				return true
+			}
 			for i, l := range x.Lhs {
 				l = ast.Unparen(l)
 				if id, ok := l.(*ast.Ident); ok && id.Name == "_" {
